@@ -266,8 +266,11 @@ func IsPermanentError(err error) bool {
 	permanentPatterns := []string{
 		"revision mismatch",
 		"wrong last sequence",
+		"key exists",
 		"key not found",
 		"permission denied",
+		"permissions violation",
+		"authorization violation",
 		"bucket not found",
 		"access denied",
 		"invalid",
